@@ -76,7 +76,7 @@ def run(run, tier, seed, replay_case=None):
     run.coverage["trusted_base"] = TRUSTED
     model = build_c21_model()
 
-    n = int(os.environ.get("VERIF_N", "0")) or (20 if tier == "quick" else 300)
+    n = int(os.environ.get("VERIF_N", "0")) or (12 if tier == "quick" else 120)
     rng = random.Random(seed * 7919 + 21)
     gen = []
     for k in range(n):
